@@ -70,6 +70,9 @@ def make_ctx(fa):
     c["raw"] = copy.deepcopy(REC)
     c["small"] = fa.parse_schema(copy.deepcopy(SMALL))
     c["node"] = fa.parse_schema(copy.deepcopy(NODE))
+    # a schema marked as parsed by an old release: the marker without the embedded name table
+    c["legacy"] = {"type": "record", "name": "demo.Legacy", "__fastavro_parsed": True, "fields": [
+        {"name": "k", "type": {"type": "enum", "name": "demo.Kind", "symbols": ["A", "B"]}}, {"name": "again", "type": "demo.Kind"}, {"name": "n", "type": "long"}]}
     c["dec3"] = fa.parse_schema(copy.deepcopy(DEC3))
     c["dec12"] = fa.parse_schema(copy.deepcopy(DEC12))
     c["fixdec"] = fa.parse_schema(copy.deepcopy(FIXDEC))
@@ -203,6 +206,28 @@ def op_many_strings(fa, c, k):
     return fa.schemaless_reader(io.BytesIO(k["many"]), {"type": "array", "items": "string"})
 
 
+def op_cont_write_null(fa, c, k):
+    fo = io.BytesIO()
+    fa.writer(fo, c["rec"], [DATUM2], codec="null", sync_marker=b"N" * 16)
+    return fo.getvalue()
+
+
+def op_cont_write_bz(fa, c, k):
+    fo = io.BytesIO()
+    fa.writer(fo, c["small"], [SDATUM], codec="bzip2", sync_marker=b"Z" * 16)
+    return fo.getvalue()
+
+
+def op_legacy_write(fa, c, k):
+    fo = io.BytesIO()
+    fa.schemaless_writer(fo, c["legacy"], {"k": "B", "again": "A", "n": 64})
+    return fo.getvalue()
+
+
+def op_legacy_validate(fa, c, k):
+    return fa.validate({"k": "A", "again": "B", "n": 1}, c["legacy"], raise_errors=False)
+
+
 def op_fingerprint(fa, c, k):
     return [fa.schema.fingerprint(t, "CRC-64-AVRO") for t in ('"int"', "é")] + [fa.schema.fingerprint('"int"', "MD5")]
 
@@ -223,6 +248,7 @@ OPS = [
     ("twin_a_read", op_twin_a_read), ("twin_b_read", op_twin_b_read), ("twin_a_sl_read", op_twin_a_sl_read), ("twin_b_sl_read", op_twin_b_sl_read),
     ("json_write_node", op_json_write_node), ("json_read_node", op_json_read_node), ("few_strings", op_few_strings), ("many_strings", op_many_strings),
     ("fingerprint", op_fingerprint),
+    ("cont_write_null", op_cont_write_null), ("cont_write_bz", op_cont_write_bz), ("legacy_write", op_legacy_write), ("legacy_validate", op_legacy_validate),
 ]
 CHUNKS = 16
 OPCODE_FILES = ("_logical_readers_py.py", "_logical_writers_py.py", "json_decoder.py", "parser.py", "binary_encoder.py")
@@ -230,10 +256,11 @@ OPCODE_FILES = ("_logical_readers_py.py", "_logical_writers_py.py", "json_decode
 
 def units(tier):
     idx = range(len(OPS))
-    special = set(range(14, 23))
+    special = set(range(14, 27))
     us = [("pair", a, b) for a, b in itertools.combinations_with_replacement(idx, 2)
-          if (tier == "thorough" and 21 not in (a, b) and 22 not in (a, b)) or not ({a, b} & special)
-          or (a, b) in ((14, 15), (16, 17), (14, 17), (18, 18), (18, 19), (19, 19), (20, 21), (20, 20), (22, 22), (5, 22))]
+          if (tier == "thorough" and not ({a, b} & {21, 22})) or not ({a, b} & special)
+          or (a, b) in ((14, 15), (16, 17), (14, 17), (18, 18), (18, 19), (19, 19), (20, 21), (20, 20), (22, 22), (5, 22),
+                        (10, 23), (23, 24), (10, 24), (25, 25), (25, 26), (26, 26), (8, 25))]
     us = [(u, c) for u in us for c in range(CHUNKS)]
     # cold start: every execution begins with a freshly imported library (first-call initialisation races);
     # deviations at the 1st, 2nd and last visit of every source line of the default execution
@@ -251,7 +278,7 @@ def priority(unit_chunk):
         return 3
     if unit[0] in ("triple", "opcode"):
         return 2
-    big = {3, 4, 10, 11, 14, 15, 18, 19, 20, 21, 22}
+    big = {3, 4, 10, 11, 14, 15, 18, 19, 20, 21, 22, 23, 24}
     return 1 if (set(unit[1:]) & big) else 0
 
 
@@ -306,7 +333,7 @@ def run_unit(unit_chunk, tier):
     for s in solo_steps:
         prod *= max(1, s)
     if kind == "pair":
-        bound = 2 if (tier == "thorough" or prod <= 15000) else 1
+        bound = 2 if prod <= (15000 if tier == "quick" else 120000) else 1
         if tier == "thorough" and prod <= 15000:
             bound = 3
     elif kind == "cold":
